@@ -51,6 +51,17 @@ func sameOriginD(a, b ssa.Value, depth int) bool {
 			}
 		}
 	}
+	// two calls of one receiver-only accessor on the same receiver (buf.Bytes(), df.Size())
+	if ca, ok := a.(*ssa.Call); ok {
+		if cb, ok := b.(*ssa.Call); ok {
+			fa, fb := ca.Common().StaticCallee(), cb.Common().StaticCallee()
+			if fa != nil && fa == fb && len(ca.Common().Args) == 1 && len(cb.Common().Args) == 1 && fa.Signature.Recv() != nil {
+				if sameOriginD(ca.Common().Args[0], cb.Common().Args[0], depth+1) {
+					return true
+				}
+			}
+		}
+	}
 	if xa, ia := elemLoad(a); xa != nil {
 		if xb, ib := elemLoad(b); xb != nil && ia == ib && sameOriginD(xa, xb, depth+1) {
 			return true
@@ -650,6 +661,36 @@ func (v *vf) vf3Replay() {
 	if n < 2 {
 		core.Failf("vacuity guard: VF3c expected >= 2 apply sites in the replay loop, found %d", n)
 	}
+	// VF3f: once a batch has been applied under its seal, its pending entry is removed (a later seal with the
+	// same id must not re-apply it over newer records)
+	nDel := 0
+	for _, b := range replay.Blocks {
+		for _, in := range b.Instrs {
+			ci, ok := in.(ssa.CallInstruction)
+			if !ok {
+				continue
+			}
+			if bi, ok := ci.Common().Value.(*ssa.Builtin); ok && bi.Name() == "delete" && strings.Contains(ci.Common().Args[0].Type().String(), "TransactionRecords") {
+				// must be under the seal edge
+				for _, bb := range replay.Blocks {
+					iff, isIf := bb.Instrs[len(bb.Instrs)-1].(*ssa.If)
+					if !isIf {
+						continue
+					}
+					bo, isBo := iff.Cond.(*ssa.BinOp)
+					if !isBo || bo.Op != token.EQL {
+						continue
+					}
+					if f, _ := core.LoadedField(core.Unwrap(bo.X)); f == R.LRType {
+						if cst, isC := bo.Y.(*ssa.Const); isC && cst.Value != nil && constant.Compare(cst.Value, token.EQL, fin) && edgeDominates(iff, true, b) {
+							nDel++
+						}
+					}
+				}
+			}
+		}
+	}
+	v.rep.Check(nDel > 0, "VF3", "pending-entry-removed:"+core.FuncKey(replay), "the pending entry of a batch is deleted on the seal edge after it was applied", v.p.Pos(replay.Pos()), "no delete(pending, id) under the Type==BatchFinished edge: a second seal carrying the same id re-applies the old records over newer ones", true)
 	// VF3e: the pending map is created outside every loop (batches span files)
 	for _, b := range replay.Blocks {
 		for _, in := range b.Instrs {
